@@ -231,6 +231,8 @@ Definition step1 (fz : option nat) (m : machine) (o : op) : machine * out :=
   | OIterMut r a script e =>
       match getreg m r with
       | Some (k, s) =>
+          let dees := match k with KPQ => false | KDPQ => true end in
+          if negb (script_offered dees dees a script e) then inv else
           match finish_script (im_it k) a (s, im_new s) script e with
           | None => inv
           | Some x =>
@@ -245,6 +247,7 @@ Definition step1 (fz : option nat) (m : machine) (o : op) : machine * out :=
   | OIter r a script e =>
       match getreg m r with
       | Some (k, s) =>
+          if negb (script_offered true true a script e) then inv else
           match finish_script dq_it a (smap s) script e with
           | Some (Ok (_, outs)) =>
               if script_fault outs then (m, OutFault Panic) else (m, out_script outs)
@@ -252,9 +255,9 @@ Definition step1 (fz : option nat) (m : machine) (o : op) : machine * out :=
           end
       | None => inv end
   | OIntoIter r a script e =>
-      (* consumes a clone: the register keeps its queue *)
       match getreg m r with
       | Some (k, s) =>
+          if negb (script_offered true true a script e) then inv else
           match finish_script dq_it a (smap s) script e with
           | Some (Ok (_, outs)) =>
               if script_fault outs then (m, OutFault Panic) else (m, out_script outs)
@@ -264,6 +267,7 @@ Definition step1 (fz : option nat) (m : machine) (o : op) : machine * out :=
   | ODrain r a script e =>
       match getreg m r with
       | Some (k, s) =>
+          if negb (script_offered true true a script e) then inv else
           let '(l, s') := drain s in
           match finish_script dq_it a l script e with
           | Some (Ok (_, outs)) =>
@@ -276,6 +280,8 @@ Definition step1 (fz : option nat) (m : machine) (o : op) : machine * out :=
       (* consumes a clone *)
       match getreg m r with
       | Some (k, s) =>
+          let dees := match k with KPQ => false | KDPQ => true end in
+          if negb (script_offered dees dees a script e) then inv else
           match finish_script (sorted_it ple k) a s script e with
           | None => inv
           | Some (Ok (t, outs)) =>
